@@ -346,7 +346,44 @@ func (x *Exec) lookupLocal(c *EvalCtx, name string) (Value, bool) {
 				return fr.params[i], true
 			}
 		}
-		return Value{}, false
+		// renamed local: fall back to the recorded fingerprint (type, ordinal among locals of that type)
+		if h, ok := localHints[fr.fn.String()][name]; ok {
+			if a := allocByHint(fr.fn, h); a != nil {
+				if _, live := fr.vals[a]; live {
+					cands = append(cands, a)
+					x.rebound[name+" -> "+a.Comment+" in "+shortFn(fnKey(fr.fn))] = true
+				}
+			}
+		}
+		if len(cands) == 0 {
+			// code moved into a helper that has been inlined and has returned: by name, else the only local of
+			// the recorded type among the helpers' locals
+			var hit *retiredLocal
+			for i := range fr.retired {
+				if fr.retired[i].name == name {
+					hit = &fr.retired[i]
+				}
+			}
+			if hit == nil {
+				if h, ok := localHints[fr.fn.String()][name]; ok {
+					names := map[string]bool{}
+					for i := range fr.retired {
+						if fr.retired[i].typ == h.Type {
+							names[fr.retired[i].name] = true
+							hit = &fr.retired[i]
+						}
+					}
+					if len(names) != 1 {
+						hit = nil
+					}
+				}
+			}
+			if hit == nil {
+				return Value{}, false
+			}
+			x.rebound[name+" -> "+hit.name+" (local of an inlined helper) in "+shortFn(fnKey(fr.fn))] = true
+			return x.readLoc(c.st, x.ptrLoc(c.st, hit.ptr)), true
+		}
 	}
 	if len(cands) == 1 {
 		best = cands[0]
